@@ -194,6 +194,12 @@ def odd_public_keys(ctx, rng):
     cases.append(("ec-public-with-d-parameter", lambda: j.ECKey.import_key(gen.public_jwk(ec), {"d": ec["d"]}), ec))
     okp = gen.new_okp("Ed25519")
     cases.append(("okp-public-pem-with-d-parameter", lambda: j.OKPKey.import_key(gen.to_pem(okp, private=False), {"d": okp["d"]}), okp))
+    # key text that holds more than one block: a public block first, the private one after it (a key file as some tools write it);
+    # whatever the import makes of it, a public export holds no private material
+    for kty_name, jw, cls in (("rsa", rsa, j.RSAKey), ("ec", ec, j.ECKey), ("okp", okp, j.OKPKey), ("ec384", gen.new_ec("P-384"), j.ECKey)):
+        pub, priv = gen.to_pem(jw, private=False), gen.to_pem(jw, private=True)
+        for bname, text in (("pub+priv", pub + priv), ("pub+priv-str", (pub + priv).decode()), ("pub+newline+priv", pub + b"\n" + priv), ("priv+pub", priv + pub)):
+            cases.append((f"{kty_name}-pem-bundle-{bname}", (lambda cls=cls, text=text: cls.import_key(text)), jw))
     for name, mk, jwk in cases:
         ctx.ev()
         k = call(mk)
@@ -215,10 +221,14 @@ def odd_public_keys(ctx, rng):
             o = call(ks.value.as_dict, private=False)
             if o.ok:
                 scan(ctx, "KeySet.as_dict(private=False)", o.value, nd, case, private_names_forbidden=True)
-        for nm, f in (("as_pem(private=False)", lambda: key.as_pem(private=False)), ("as_pem()", lambda: key.as_pem()), ("as_der()", lambda: key.as_der())):
+        for nm, f in (("as_pem(private=False)", lambda: key.as_pem(private=False)), ("as_pem()", lambda: key.as_pem()), ("as_der()", lambda: key.as_der()),
+                      ("as_der(private=False)", lambda: key.as_der(private=False)), ("as_bytes(private=False)", lambda: key.as_bytes(private=False)),
+                      ("as_bytes()", lambda: key.as_bytes())):
             o = call(f)
             if o.ok:
                 scan(ctx, nm, o.value, nd, case)
+                if isinstance(o.value, (bytes, str)) and b"PRIVATE KEY" in (o.value if isinstance(o.value, bytes) else o.value.encode()):
+                    ctx.violation(f"leak:{nm}:private-pem-block", f"{nm} of a key the library classes as public ({name}) contains a PRIVATE KEY block", case)
 
 
 def token_outputs_jws(ctx, rng, mon):
